@@ -105,12 +105,15 @@ SET_METHODS = {"add", "update", "discard", "copy", "remove", "clear", "union", "
 COVERAGE: dict[tuple[str, str, str], dict[str, int]] = {}
 
 
-def _cover(env: dict, kind: str, text: str, outcome: str) -> None:
+def _cover(env: dict, kind: str, text: str, outcome: str, exc: BaseException | None = None) -> None:
     fn = env.get("__fn__")
     if fn is None:
         return
     d = COVERAGE.setdefault((fn, kind, text), {"ok": 0, "raise": 0})
     d[outcome] += 1
+    if exc is not None:  # which exception passed through the construct (its own, or one of a callee's)
+        name = str(exc).split(":")[0].strip()
+        d[f"raise:{name}"] = d.get(f"raise:{name}", 0) + 1
 
 
 class Ev:
@@ -174,10 +177,10 @@ class Ev:
             kind, text, pop = meta
             try:
                 v = self._ev(n)
-            except _ModelRaise:
-                _cover(self.env, kind, text, "raise")
+            except _ModelRaise as err:
+                _cover(self.env, kind, text, "raise", err)
                 if pop:
-                    _cover(self.env, "pop", pop, "raise")
+                    _cover(self.env, "pop", pop, "raise", err)
                 raise
             _cover(self.env, kind, text, "ok")
             if pop:
@@ -344,7 +347,16 @@ class Ev:
             self.yielded.extend(self.iterate(self.ev(n.value)))
             return None
         if isinstance(n, ast.Dict):
-            return {self.ev(k): self.ev(v) for k, v in zip(n.keys, n.values) if k is not None}
+            d: dict = {}
+            for k, v in zip(n.keys, n.values):
+                if k is None:  # {**other}
+                    m = self.ev(v)
+                    if not isinstance(m, dict):
+                        raise self.bad(n, "** of something that is not a dict in a dict display")
+                    d.update(m)
+                else:
+                    d[self.ev(k)] = self.ev(v)
+            return d
         if isinstance(n, ast.JoinedStr):
             out = []
             for part in n.values:
@@ -422,10 +434,10 @@ class Ev:
                         raise self.bad(n, "isinstance against a value the model cannot name as a class")
                 if isinstance(obj, Obj):
                     return any(k in names for k in obj.kinds)
-                prim = {"str": str, "int": int, "list": list, "tuple": tuple, "dict": dict, "set": set, "bool": bool, "frozenset": frozenset}
-                if all(x in prim for x in names):
-                    return isinstance(obj, tuple(prim[x] for x in names))
-                return False
+                prim = {"str": str, "int": int, "list": list, "tuple": tuple, "dict": dict, "set": set, "bool": bool, "frozenset": frozenset, "float": float, "bytes": bytes, "object": object}
+                # a primitive value is an instance of the primitive types named, never of a class of the model
+                hits = tuple(prim[x] for x in names if x in prim)
+                return bool(hits) and isinstance(obj, hits)
             if f.id == "super" and not n.args:
                 owner = self.env.get("__owner__")
                 me = self.env.get("__self__")
@@ -737,7 +749,8 @@ class Ev:
                 else:
                     raise self.bad(s, "with statement")
             elif isinstance(s, ast.FunctionDef):
-                self.env[s.name] = self.closure(s)
+                # a function defined inside a function: what it evaluates is charged to the enclosing one (as E3 does)
+                self.env[s.name] = self.closure(s, extra={"__nested__": True} if "__fn__" in self.env else None)
             elif isinstance(s, ast.Match):
                 subject = self.ev(s.subject)
                 for case in s.cases:
